@@ -301,7 +301,9 @@ class Executor(Generic[TContext]):
         self.pending_incremental_futures = set()
         self.background_futures = set()
         self.async_work_finished_hook_task = None
-        self._relevant_sub_fields: dict[tuple, CollectedFields] = {}
+        self._relevant_sub_fields: dict[
+            tuple, tuple[tuple[FieldDetails, ...], CollectedFields]
+        ] = {}
         self._stream_usages: RefMap[FieldDetailsList, StreamUsage] = RefMap()
 
     @classmethod
@@ -1825,18 +1827,21 @@ class Executor(Generic[TContext]):
             if len(field_details_list) == 1  # optimize most frequent case
             else (return_type, *map(id, field_details_list))
         )
-        collected_fields: CollectedFields | None = relevant_sub_fields.get(key)
-        if collected_fields is None:
-            collected_fields = collect_subfields(
-                self.schema,
-                self.fragments,
-                self.variable_values,
-                self.operation,
-                return_type,
-                field_details_list,
-                self.hide_suggestions,
-            )
-            relevant_sub_fields[key] = collected_fields
+        cached = relevant_sub_fields.get(key)
+        if cached is not None:
+            return cached[1]
+        collected_fields = collect_subfields(
+            self.schema,
+            self.fragments,
+            self.variable_values,
+            self.operation,
+            return_type,
+            field_details_list,
+            self.hide_suggestions,
+        )
+        # Keep the objects whose ids form the key alive as long as the cache entry
+        # exists, otherwise their ids could be reused for a different field group.
+        relevant_sub_fields[key] = (tuple(field_details_list), collected_fields)
         return collected_fields
 
 
